@@ -43,7 +43,9 @@ def plan(tier, seed):
     return [dict(seed=seed, shard=i, n=n, cross=(i < 4), part=i,
                  bundled=(i in (2, 3) or i >= 10),
                  regrouped=(i in (1, 3, 7, 8, 12, 13)),
-                 counter_first=(i in (0, 2, 6, 9, 12, 15)))
+                 counter_first=(i in (0, 2, 6, 9, 12, 15)),
+                 outage={4: 255, 5: 65535, 10: 65536, 11: 70000,
+                         14: 131071}.get(i))
             for i in range(16)]
 
 
@@ -207,6 +209,22 @@ def run_shard(params):
             ri = rig.region(t, SyncManager.IN)
             ro = rig.region(t, SyncManager.OUT)
             base = bytearray(rig.frame())
+            if params.get("outage"):
+                # a long outage first: so many frames come back with a wrong
+                # working counter in the write datagrams (the terminal was
+                # unplugged, say); afterwards the law holds as before
+                bad = bytearray(base)
+                for start, stop, cmd in rig.sg.packet.on_the_fly:
+                    w_, = struct.unpack_from("<H", bad, 14 + stop - 2)
+                    struct.pack_into("<H", bad, 14 + stop - 2,
+                                     (w_ + 1) & 0xffff)
+                n_out = params["outage"]
+                before = rig.sg.wkc_errors
+                kern.test_run(rig.ld.fd, bytes(bad), repeat=n_out)
+                res.count("frames_with_wrong_counters_before_the_vectors",
+                          n_out)
+                res.info.setdefault("error_counter_after_outages", []).append(
+                    [n_out, before, rig.sg.wkc_errors])
             if params["cross"]:
                 vectors = itertools.chain(
                     cross_vectors(params["part"]),
